@@ -96,6 +96,13 @@ def build(t, v):
   return mk_class(t)(*[build(ft, v[fn]) for fn, ft in t[2]])
 
 
+def build_ints(t, v):
+  """The same value constructed from plain Python ints at the leaves (also inside list arguments)."""
+  if t[0] == "B": return v
+  if t[0] == "L": return [build_ints(t[1], x) for x in v]
+  return mk_class(t)(*[build_ints(ft, v[fn]) for fn, ft in t[2]])
+
+
 def read(t, obj):
   """Value tree of a real object (through public attributes)."""
   if t[0] == "B": return int(obj)
@@ -147,6 +154,13 @@ def check_shape(t, acc):
       tb2 = v2.to_bits()
       if int(tb2) != b or tb2.nbits != W: fail("to_bits-of-constructed", b, b, int(tb2), f"tree={want}"); continue
       if read(t, T.from_bits(tb2)) != want: fail("roundtrip-value", b, want, read(t, T.from_bits(tb2)))
+      try:
+        v3 = build_ints(t, want)
+        if int(v3.to_bits()) != b or not (v3 == v2) or hash(v3) != hash(v2): fail("constructed-from-ints" + (":list-field" if _has_list(t) else ""), b, b, int(v3.to_bits()))
+      except TypeError as ex:
+        if "unhashable" not in str(ex): fail("constructed-from-ints:raised", b, "a value", repr(ex)[:120])
+      except Exception as ex:
+        fail("constructed-from-ints:raised", b, "a value", repr(ex)[:120])
       if not (v == v2) or (v != v2): fail("eq-equal-values", b, True, False)
       try:
         h1, h2 = hash(v), hash(v2)
@@ -232,7 +246,7 @@ ALIAS_SHAPES = [
 
 def alias_letters(t):
   leaves = list(layout.leaf_paths(t))
-  L_ = [("A@=B",), ("B@=A",), ("A<<=B",), ("B<<=A",), ("Aflip",), ("Bflip",), ("A=cloneB",), ("B=deepcopyA",), ("A@=bits",)]
+  L_ = [("A@=B",), ("B@=A",), ("A<<=B",), ("B<<=A",), ("Aflip",), ("Bflip",), ("A=cloneB",), ("B=deepcopyA",), ("A@=bits",), ("A=ctorB",)]
   for who in "AB":
     for path, w in leaves:
       L_.append(("mut", who, path))
@@ -259,7 +273,7 @@ class AliasModel:
       d = k[0]
       if self.nxt[d] is None: return False
       self.cur[d] = copy.deepcopy(self.nxt[d])
-    elif k == "A=cloneB":
+    elif k in ("A=cloneB", "A=ctorB"):
       self.cur["A"] = copy.deepcopy(self.cur["B"]); self.nxt["A"] = None
     elif k == "B=deepcopyA":
       self.cur["B"] = copy.deepcopy(self.cur["A"]); self.nxt["B"] = None
@@ -287,6 +301,7 @@ def alias_run(t, hist):
     elif k in ("A<<=B", "B<<=A"): o[k[0]] <<= o[k[-1]]
     elif k in ("Aflip", "Bflip"): o[k[0]]._flip()
     elif k == "A=cloneB": o["A"] = o["B"].clone()
+    elif k == "A=ctorB": o["A"] = T(*[getattr(o["B"], f) for f in T.__bitstruct_fields__])      # a new value built from the field objects of B
     elif k == "B=deepcopyA": o["B"] = copy.deepcopy(o["A"])
     elif k == "A@=bits": o["A"] @= Bits(W, 5 % (1 << W))
     elif k == "mut":
@@ -327,11 +342,35 @@ def alias_explore(t, depth, acc):
 
 # ------------------------------------------------------------------ runner API
 
+def check_malformed(acc):
+  """list specifications that are not rectangular, or mix leaf types: refused, or (if accepted) packed with the sum of the leaf widths"""
+  from pymtl3.datatypes import mk_bitstruct, Bits1, Bits2, Bits4
+  specs = {
+    "ragged-depth1": [[Bits4, Bits4], [Bits4]],
+    "ragged-depth2": [[[Bits4] * 2] * 2, [[Bits4] * 3] * 2],
+    "ragged-depth2-first-longer": [[[Bits4] * 3] * 2, [[Bits4] * 2] * 2],
+    "ragged-depth3": [[[[Bits2] * 2] * 2] * 2, [[[Bits2] * 2] * 2, [[Bits2] * 3] * 2]],
+    "mixed-leaf-types": [[Bits4, Bits4], [Bits4, Bits2]],
+    "mixed-depth": [[Bits4, Bits4], Bits4],
+  }
+  def nleafbits(x): return sum(nleafbits(y) for y in x) if isinstance(x, list) else x.nbits
+  for label, spec in specs.items():
+    acc.count("evaluations"); acc.count("malformed_specs")
+    try:
+      T = mk_bitstruct(f"Mal_{next(_uid)}", {"a": Bits1, "l": spec})
+    except Exception:
+      acc.count("malformed_refused"); continue
+    want = 1 + nleafbits(spec)
+    if T.nbits != want:
+      acc.violation(f"layout:malformed-list-accepted:{label}", dict(kind="malformed", label=label), f"refused, or {want} bits", f"accepted with nbits = {T.nbits}")
+
+
 def shards(tier):
   n = len(shapes(tier))
   k = 32
   S = [("layout", i, k) for i in range(k)]
   S += [("alias", i, 2 if tier == "quick" else 3) for i in range(len(ALIAS_SHAPES))]
+  S += [("malformed",)]
   if tier == "thorough": S += [("alias", 0, 4)]
   return S
 
@@ -344,6 +383,8 @@ def run_shard(shard, tier, seed):
     for j in range(shard[1], len(sh), shard[2]):
       check_shape(sh[j], acc)
       if j % 400 == 0: acc.sample(dict(kind="layout", type=sh[j], width=layout.width(sh[j])))
+  elif shard[0] == "malformed":
+    check_malformed(acc)
   else:
     alias_explore(ALIAS_SHAPES[shard[1]], shard[2], acc)
   return acc
@@ -352,6 +393,9 @@ def run_shard(shard, tier, seed):
 def replay(case):
   from vt.ir import tup
   acc = Acc()
+  if case["kind"] == "malformed":
+    check_malformed(acc)
+    return [(v["sig"], v["expected"], v["observed"], v["msg"]) for v in acc.violations if v["case"]["label"] == case["label"]]
   t = tup(case["type"])
   if case["kind"] == "layout":
     check_shape(t, acc)
